@@ -342,7 +342,7 @@ def run_link(blk, sched):
             msg = ('consumer side: ' + m1) if m1 else ('producer side: ' + m2) if m2 else None
         if msg and viol is None:
             viol = {'what': '%s (order %s, reg_in %s) violates C16: %s' % (blk.name, blk.order, blk.source, msg), 'block': 'Link', 'W': blk.W, 'Q': blk.Q, 'DW': blk.DW,
-                    'order': blk.order, 'source': blk.source, 'inputs': LINK_INPUTS, 'outputs': LINK_OUTPUTS,
+                    'order': blk.order, 'source': blk.source, 'gated_driver_name': blk.clkname, 'twin_gated_driver': blk.twin, 'inputs': LINK_INPUTS, 'outputs': LINK_OUTPUTS,
                     'schedule': [list(x) for x in sched[:k + 1]], 'call': k, 'outputs_before': prev, 'outputs_after': new, 'expected': exp}
         tr.append(new); prev = new
     per_cycle = []
@@ -363,7 +363,9 @@ def link_sweep(ctx, n_sched, n_calls, with_coq, n_coq):
                 Q = rng.choice([W, max(1, W - 2), min(DW, W + 3), DW])
                 multi = (k // 2) % 2 == 1
                 kind = kinds[k % len(kinds)]
-                blk = build_block(ctx, B.Link, W, Q, DW, order, source)
+                # gated driver names from a colliding pool: its own name, or the system clock's name; optionally a second gated driver of the same name
+                clkname, twin = (rng.choice(['clk_dut', 'clk', 'clk']), rng.random() < 0.5) if source != 'poke' else ('clk_dut', False)
+                blk = build_block(ctx, B.Link, W, Q, DW, order, source, clkname, twin)
                 dp = blk.dump() if with_coq and len(dumps) < (3 if ctx.quick else 12) and k % 5 == 0 else None
                 iv = dp.values() if dp else None
                 full = []
@@ -380,8 +382,8 @@ def link_sweep(ctx, n_sched, n_calls, with_coq, n_coq):
                 if k < 2: ctx.sample({'block': 'Link', 'order': order, 'source': source, 'first_calls': [list(x) for x in sched[:4]], 'outputs': tr[:4]})
                 if len(cases) < n_coq: cases.append((W, Q, DW, order, source, sched, tr, coq_ins, idx))
                 if dp:
-                    ids = [dp.wid[id(w)] for w in blk.inw]
-                    dumps.append((dp, [([(wid, v) for wid, v in zip(ids, i[:7])], i[7]) for i in sched], iv, full, order, source, sched))
+                    ids = [dp.wid[id(w)] for w in blk.inw + [blk.aux_en]]      # the bench also drives aux_en = not dut_en
+                    dumps.append((dp, [([(wid, v) for wid, v in zip(ids, i[:7] + (1 - i[6],))], i[7]) for i in sched], iv, full, order, source, sched))
                 k += 1
     ctx.notes['link_schedules'] = {'run': k, 'in_Coq': len(cases) if with_coq else 0, 'netlists_under_kernel_model': len(dumps)}
     if not with_coq: return
@@ -586,7 +588,7 @@ def replay(rp):
     name = rp.get('block')
     sched = [tuple(x) for x in rp.get('schedule', [])]
     if name == 'Link' and sched:
-        blk = B.Link(rp['W'], rp['Q'], rp['DW'], rp['order'], rp['source'])
+        blk = B.Link(rp['W'], rp['Q'], rp['DW'], rp['order'], rp['source'], rp.get('gated_driver_name', 'clk_dut'), rp.get('twin_gated_driver', False))
         tr, _, _, viol = run_link(blk, sched)
         print('inputs %s\noutputs %s' % (LINK_INPUTS, LINK_OUTPUTS))
         for i, o in zip(sched, tr): print('  in %s -> out %s' % (list(i), o))
